@@ -113,6 +113,8 @@ where
     }
 
     fn visit_function_call(&mut self, f: &FunctionCall) -> visit::Result<Self> {
+        #[cfg(kepler_5_rrss_verif)]
+        crate::verif_hooks::burn_exec();
         let data = self.env.borrow().lookup_func(&f.name.0)?;
         if data.params.len() != f.args.len() {
             return Err(ProduceValError::WrongNumberOfFunctionArguments {
